@@ -4836,11 +4836,9 @@ class Symbol:
 
         # Ignore previous symbol's defaults.
         # They'll be added during finalize_node() for completeness, but won't take any effect;
-        # First one will be used as it has no condition.
-        dependency = self.kconfig.y
-        for node in self.nodes:
-            dependency = self.kconfig._make_and(dependency, node.dep)
-        self.defaults = [(sym_for_val, dependency)]
+        # First one will be used: like any default it holds under the dependencies of a definition of the symbol
+        # (of any one of them if the symbol is defined in several places).
+        self.defaults = [(sym_for_val, self.direct_dep)]
         # imply and 'set default' act on the same level as defaults (they apply only without a user value) and
         # would otherwise override the value kept from sdkconfig.
         self.weak_rev_dep = self.kconfig.n
@@ -6301,9 +6299,9 @@ class Choice:
         # add new symbols, e.g. new default value is a previously unseen string/number.
         parsing_kconfigs = self.kconfig._parsing_kconfigs
         self.kconfig._parsing_kconfigs = True
-        dependency = self.kconfig.y
-        for node in self.nodes:
-            dependency = self.kconfig._make_and(dependency, node.dep)
+        # Like any default of the choice, the kept selection holds under the dependencies of a definition of the
+        # choice (of any one of them if the choice is defined in several places).
+        dependency = self.direct_dep
         self.defaults = [(sym, dependency)]
         # The new default's condition may name options none of the choice's own conditions named so far (the
         # dependencies of an additional, promptless definition): they must invalidate the choice when they change.
